@@ -321,6 +321,9 @@ class SoftwareSwitchBase (object):
     if r is False:
       return # Rejected (error already sent) -- leave the buffer alone
 
+    if ofp.command in (OFPFC_DELETE, OFPFC_DELETE_STRICT):
+      return # buffer_id is not meaningful for these
+
     if ofp.buffer_id is not None:
       self._process_actions_for_packet_from_buffer(ofp.actions, ofp.buffer_id,
                                                    ofp)
